@@ -8,7 +8,13 @@ REPO=${VERIF_REPO:-/repo}
 PROP=$1
 TIER=${2:-${VERIF_TIER:-quick}}
 if [ -z "$PROP" ]; then echo "usage: $0 <property> [quick|thorough]"; exit 2; fi
-( cd "$VERIF/checker" && go build -o "$VERIF/bin/digcheck" ./cmd/digcheck ) || { echo "UNDECIDED property=$PROP checker does not build"; exit 2; }
+( cd "$VERIF/checker" && go build -o "$VERIF/bin/digcheck" ./cmd/digcheck ) || {
+  mkdir -p "$VERIF/evidence/violations"
+  echo "{\"property\": \"$PROP\", \"status\": \"undecided\", \"detail\": \"the checker itself does not build (go build in /verif/checker failed); nothing was analysed\"}" > "$VERIF/evidence/violations/$PROP-build.json"
+  echo "UNDECIDED property=$PROP checker does not build"
+  echo "VIOLATION property=$PROP replay=$VERIF/evidence/violations/$PROP-build.json"
+  exit 1
+}
 if [ "$TIER" = thorough ] && [ -x "$VERIF/thorough.sh" ]; then
   exec "$VERIF/thorough.sh" "$PROP"
 fi
